@@ -1127,14 +1127,14 @@ def _child_args(item):
                                                    normalize=False)
     if api == "mi_matrix":
         Xs = [typed(x, item["dx"], item["lx"]) for x in item["Xs"]]
-        Ys = [typed(y, item["dy"], item["ly"]) for y in item["Ys"]]
+        Ys = Xs if item.get("same") else [typed(y, item["dy"], item["ly"]) for y in item["Ys"]]
         return th, lambda: mutual_info.mi_matrix(Xs, Ys, item["nx"], item["ny"], normalize=False)
     X = typed(item["X"], item["dx"], item["lx"], fill=0)
     if item.get("Y") is None:
         if item["nx"] is None:
             return th, lambda: mutual_info.joint_counts(X)
         return th, lambda: mutual_info.joint_counts(X, n_x=item["nx"])
-    Y = typed(item["Y"], item["dy"], item["ly"], fill=0)
+    Y = X if item.get("same") else typed(item["Y"], item["dy"], item["ly"], fill=0)
     if api == "kernel":
         return th, lambda: libinfo.matrix_bincount2d(X, Y, item["nx"], item["ny"])
     return th, lambda: mutual_info.joint_counts(X, Y, item["nx"], item["ny"])
@@ -1184,7 +1184,25 @@ def _neg_values(dtype, n):
 @st.composite
 def invalid_item(draw):
     kind = draw(st.sampled_from(["neg", "neg", "neg", "big", "big", "len", "len", "neg_self", "big_self",
-                                 "neg_mi_matrix", "len_mi_matrix", "neg_weighted", "len_weighted"]))
+                                 "neg_mi_matrix", "len_mi_matrix", "neg_weighted", "len_weighted",
+                                 "big_same_object", "big_same_object"]))
+    if kind == "big_same_object":
+        # the SAME array object on both sides, valid for the declared n_x but not for the smaller declared n_y
+        T = draw(st.integers(1, 12))
+        F = draw(st.integers(1, 3))
+        n_x = draw(st.integers(3, 6))
+        n_y = draw(st.integers(2, n_x - 1))
+        X = draw(side(T, F, n_x, True))
+        X[draw(st.integers(0, T - 1))][draw(st.integers(0, F - 1))] = draw(st.integers(n_y, n_x - 1))
+        api = draw(st.sampled_from(["joint_counts", "kernel", "mi_matrix"]))
+        dx = draw(st.sampled_from(INT_DTYPES))
+        item = {"kind": kind, "api": api, "expect": "raise", "threads": draw(st.sampled_from([1, 2, 16])),
+                "lx": draw(st.sampled_from(LAYOUTS)), "ly": "C", "nx": n_x, "ny": n_y, "dx": dx, "dy": dx, "same": True}
+        if api == "mi_matrix":
+            item.update({"Xs": [X], "Ys": [X]})
+        else:
+            item.update({"X": X, "Y": X})
+        return item
     T = draw(st.integers(1, 12))
     Fx, Fy = draw(st.integers(1, 3)), draw(st.integers(1, 3))
     n_x, n_y = draw(st.integers(2, 5)), draw(st.integers(2, 5))
